@@ -1308,3 +1308,142 @@ Proof.
   intros H1 H2 H. unfold initial_pass. rewrite H1, H2. destruct (enabled f); cbn [negb]; [|reflexivity].
   destruct H as [H|H]; [discriminate|]. rewrite H. reflexivity.
 Qed.
+
+(* ---------------------------------------------------------------------------------------------- *)
+(* E. the receive task in front of the filter ([recv_inbound]): which source address is handed to
+   the handler, which sources count as solicited, which packets meet the node stage *)
+
+Lemma saddr_eqb_eq a b : saddr_eqb a b = true <-> a = b.
+Proof.
+  destruct a as [i1 p1 f1 s1], b as [i2 p2 f2 s2]. unfold saddr_eqb. cbn.
+  rewrite !andb_true_iff, !N.eqb_eq. split.
+  - intros [[[-> ->] ->] ->]. reflexivity.
+  - intro H. injection H as -> -> -> ->. auto.
+Qed.
+
+(* the documented normalisation: IP and port are kept, flowinfo and scope id are zero afterwards *)
+Lemma normalise_src_spec a :
+  normalise_src a = {| sa_ip := sa_ip a; sa_port := sa_port a; sa_flow := 0; sa_scope := 0 |}.
+Proof.
+  unfold normalise_src. destruct a as [i p f s]. cbn.
+  destruct (f =? 0) eqn:F; destruct (s =? 0) eqn:S; cbn; try reflexivity.
+  apply N.eqb_eq in F, S. subst. reflexivity.
+Qed.
+
+Lemma normalise_src_fixed a : sa_flow a = 0 -> sa_scope a = 0 -> normalise_src a = a.
+Proof. intros F S. rewrite normalise_src_spec. destruct a; cbn in *; subst; reflexivity. Qed.
+
+Lemma normalise_src_idem a : normalise_src (normalise_src a) = normalise_src a.
+Proof. rewrite !normalise_src_spec. reflexivity. Qed.
+
+(* The source address handed to the handler (and used for the exemption lookup and the filter) is
+   the datagram's source address with flowinfo and scope id zeroed - whether one or both of them were
+   set - and nothing else changed: same IP (an IPv4-mapped IPv6 address stays what it is), same port. *)
+Theorem inbound_forwards_normalised_source f p expected src packet now :
+  let fwd := snd (recv_inbound f p expected src packet now) in
+  fwd = normalise_src src /\
+  sa_ip fwd = sa_ip src /\ sa_port fwd = sa_port src /\ sa_flow fwd = 0 /\ sa_scope fwd = 0.
+Proof.
+  unfold recv_inbound.
+  destruct (handle_inbound f p (is_exempt expected (normalise_src src)) (sa_ip (normalise_src src))
+              (option_map packet_src_id packet) now) as [[f' p'] x].
+  cbn [snd]. rewrite normalise_src_spec. cbn. auto.
+Qed.
+
+Corollary inbound_source_already_normal f p expected src packet now :
+  sa_flow src = 0 -> sa_scope src = 0 -> snd (recv_inbound f p expected src packet now) = src.
+Proof.
+  intros F S. destruct (inbound_forwards_normalised_source f p expected src packet now) as [H _].
+  cbv zeta in H. rewrite H. apply normalise_src_fixed; assumption.
+Qed.
+
+(* A datagram is solicited only if expected_responses holds exactly its (normalised) socket
+   address: entries that differ from the source in the IP or in the port exempt nothing. *)
+Theorem exemption_is_per_socket_address f p expected src packet now :
+  (forall e, In e expected -> sa_ip e <> sa_ip src \/ sa_port e <> sa_port src) ->
+  recv_inbound f p expected src packet now = recv_inbound f p [] src packet now.
+Proof.
+  intro H. unfold recv_inbound.
+  assert (E : is_exempt expected (normalise_src src) = false).
+  { unfold is_exempt. apply not_true_is_false. intro T. apply existsb_exists in T.
+    destruct T as (e & I & Q). apply saddr_eqb_eq in Q. rewrite normalise_src_spec in Q.
+    destruct (H e I) as [D|D]; apply D; rewrite <- Q; reflexivity. }
+  rewrite E. reflexivity.
+Qed.
+
+Lemma is_exempt_in expected a : is_exempt expected a = true <-> In a expected.
+Proof.
+  unfold is_exempt. rewrite existsb_exists. split.
+  - intros (e & I & Q). apply saddr_eqb_eq in Q. subst. exact I.
+  - intro I. exists a. split; [exact I|apply saddr_eqb_eq; reflexivity].
+Qed.
+
+(* ... and a datagram from an address in expected_responses bypasses both passes *)
+Theorem exempted_source_bypasses_filter f p expected src packet now :
+  In (normalise_src src) expected ->
+  recv_inbound f p expected src packet now =
+  (f, p, match packet with None => Unrecognized | Some _ => Deliver end, normalise_src src).
+Proof.
+  intro I. unfold recv_inbound. apply is_exempt_in in I. rewrite I, handle_inbound_exempt.
+  destruct packet; reflexivity.
+Qed.
+
+(* an unsolicited datagram from a banned IP is dropped, whatever else is awaited from other ports
+   or other addresses *)
+Corollary unsolicited_banned_ip_dropped f p expected src packet now :
+  (forall e, In e expected -> sa_ip e <> sa_ip src \/ sa_port e <> sa_port src) ->
+  mem (sa_ip src) (permit_ips p) = false -> has_key (sa_ip src) (ban_ips p) = true ->
+  recv_inbound f p expected src packet now = (f, p, DropIpStage, normalise_src src).
+Proof.
+  intros H M B. rewrite (exemption_is_per_socket_address f p expected src packet now H).
+  unfold recv_inbound. cbn [is_exempt existsb]. unfold handle_inbound.
+  replace (sa_ip (normalise_src src)) with (sa_ip src) by (rewrite normalise_src_spec; reflexivity).
+  rewrite (initial_banned f p (sa_ip src) now M B). reflexivity.
+Qed.
+
+(* handshake packets carry a source id like message packets and are treated alike: they meet the
+   node stage (ban / permit list of node ids, per-node quota) *)
+Theorem handshake_packets_pass_node_stage f p expected src id now :
+  recv_inbound f p expected src (Some (PHandshake id)) now =
+  recv_inbound f p expected src (Some (PMessage id)) now.
+Proof. reflexivity. Qed.
+
+Corollary unsolicited_packet_from_banned_node_dropped f p expected src k id now :
+  packet_src_id k = Some id ->
+  is_exempt expected (normalise_src src) = false ->
+  mem id (permit_nodes p) = false -> has_key id (ban_nodes p) = true ->
+  let x := snd (fst (recv_inbound f p expected src (Some k) now)) in
+  x = DropIpStage \/ x = DropNodeStage.
+Proof.
+  intros K E M B. unfold recv_inbound. rewrite E. cbn [option_map]. rewrite K.
+  set (ip := sa_ip (normalise_src src)).
+  unfold handle_inbound. pose proof (initial_pass_shape f p ip now) as S.
+  destruct (initial_pass f p ip now) as [[f1 p1] ok1]. destruct S as (_ & _ & _ & Pn & Bnn & _).
+  destruct ok1; cbn [negb]; [|left; reflexivity].
+  rewrite (final_banned f1 p1 ip id now); [right; reflexivity|congruence|congruence].
+Qed.
+
+(* Every decodable packet reaches the handler when neither a ban nor a quota applies - whatever its
+   kind and its source id (the local node's own id is an id like any other; the body is not looked
+   at): with the filter switched off only the two ban lists can stop it. *)
+Theorem unfiltered_packet_is_delivered f p expected src k now :
+  enabled f = false ->
+  has_key (sa_ip src) (ban_ips p) = false ->
+  (forall id, packet_src_id k = Some id -> has_key id (ban_nodes p) = false) ->
+  recv_inbound f p expected src (Some k) now = (f, p, Deliver, normalise_src src).
+Proof.
+  intros En Bi Bn. unfold recv_inbound.
+  destruct (is_exempt expected (normalise_src src)).
+  - rewrite handle_inbound_exempt. reflexivity.
+  - unfold handle_inbound. cbv beta iota.
+    replace (sa_ip (normalise_src src)) with (sa_ip src) by (rewrite normalise_src_spec; reflexivity).
+    assert (I : initial_pass f p (sa_ip src) now = (f, p, true)).
+    { unfold initial_pass. destruct (mem (sa_ip src) (permit_ips p)); [reflexivity|].
+      rewrite Bi, En. reflexivity. }
+    rewrite I. cbn [negb option_map].
+    destruct (packet_src_id k) as [id|] eqn:K; [|reflexivity].
+    assert (F : final_pass f p (sa_ip src) id now = (f, p, true)).
+    { unfold final_pass. destruct (mem id (permit_nodes p)); [reflexivity|].
+      rewrite (Bn id eq_refl), En. reflexivity. }
+    rewrite F. reflexivity.
+Qed.
